@@ -11,6 +11,9 @@
     gotrimp <s> <p> / gotrims <s> <p>  → <bytes>            strings.TrimPrefix / TrimSuffix
     gohasp <s> <p> / gohass <s> <p>    → 0|1                strings.HasPrefix / HasSuffix
     gosplit <s> <byte>       → <part>,<part>,…              strings.Split with a one-byte separator
+    goatoi <s>               → <int> ok | <int> err         strconv.Atoi
+    gorematch <pat> <s>      → 0 | 1 | unsupported          regexp.MustCompile(pat).MatchString(s), subset ^items$
+    goscan <bytes>           → <tok>,<tok>,… err=0|1        bufio.Scanner (ScanLines) tokens and whether Err() != nil
 -/
 import AgeModel.Wire
 import AgeModel.GoSem
@@ -58,6 +61,19 @@ def handle (op : String) (args : List String) : Option String :=
       match c with
       | [c] => ",".intercalate ((Go.strings_Split1 s c).map hexOrDash)
       | _ => "bad-args"
+  | "goatoi" => some <| b1 args fun s =>
+      let r := Go.strconv_Atoi s
+      s!"{r.1} {if r.2.isNone then "ok" else "err"}"
+  | "gorematch" => some <| b2 args fun pat s =>
+      match pat with
+      | 94 :: body =>
+        if body.getLast? == some 36 && (Go.reItems (body.length + 1) body.dropLast).isSome then bit (Go.regexp_MatchString pat s)
+        else "unsupported"
+      | _ => "unsupported"
+  | "goscan" => some <| b1 args fun s =>
+      let toks := Go.scanner_Tokens s
+      let t := if toks.isEmpty then "-" else ",".intercalate (toks.map fun t => if t.isEmpty then "e" else hex t)
+      s!"{t} err={bit (Go.scanner_Err s).isSome}"
   | _ => none
 
 end GoSem
